@@ -30,8 +30,8 @@ EVIDENCE = os.environ.get("Y0SIM_EVIDENCE_DIR") or os.path.join(VERIF, "evidence
 
 TIERS = {
     # per property: scenarios per group and waves; group = 4 workers running the same scenario ids
-    "quick": {"C14": (900, 1), "C02": (220, 1), "C11": (2500, 1), "wall": 200, "min_runs": 300, "max_sigs": 4},
-    "thorough": {"C14": (4000, 6), "C02": (1000, 6), "C11": (30000, 6), "wall": 1500, "min_runs": 400, "max_sigs": 8},
+    "quick": {"C14": (900, 1), "C02": (220, 1), "C11": (2500, 1), "C04": (300, 1), "wall": 200, "min_runs": 300, "max_sigs": 4},
+    "thorough": {"C14": (4000, 6), "C02": (1000, 6), "C11": (30000, 6), "C04": (3000, 6), "wall": 1500, "min_runs": 400, "max_sigs": 8},
 }
 GROUP = 4
 
@@ -333,7 +333,7 @@ def write_replay(prop: str, seed: int, rep: dict, sig: str, small: dict | None, 
 
 
 def summarise(case: dict, sig: str) -> str:
-    if case.get("prop") in ("C14", "C02"):
+    if case.get("prop") in ("C14", "C02", "C04"):
         ops = []
         for r, rnd in enumerate(case["rounds"]):
             for c in sorted(rnd["scripts"]):
@@ -437,6 +437,7 @@ def write_evidence(prop: str, tier: str, seed: int, t0: float, scen: dict, stats
 RULES = {
     "C14": "scenario = seeded abstract world (1-3 mixed graphs n<=7, acyclic or cyclic, isolated and bidirected-only nodes) + per-round scripts of the 15 surgery operations for 2-4 callers + evolve steps; each scenario is executed by 4 worker interpreters (distinct PYTHONHASHSEED, distinct construction history) and in each as 3 populations (sequential baseline, interleaved, interleaved+aborts); evaluations = scenario executions; a (scenario, worker) pair is non-trivial iff at least one context switch or abort landed inside an operation (at a y0 line event, not at an operation boundary); distinct = distinct (scenario id, worker id)",
     "C02": "scenario = seeded ADMG(s) n<=6 + 1-3 queries (X,Y disjoint non-empty) whose set/Query/Identification objects are shared by 2-4 callers running identify_outcomes/identify (and read-only surgery ops) ; executed by 4 workers (distinct hash seed + construction history) x 2 populations (sequential, interleaved); non-trivial iff a context switch landed inside an operation; distinct = distinct (scenario id, worker id)",
+    "C04": "scenario = seeded acyclic ADMG(s) n<=7 (plus nodes added by evolve steps) + per-round scripts of are_d_separated(a, b | C) queries (35 % asked in both argument orders; conditioning sets biased toward endpoints of bidirected edges and their descendants; conditions passed as set/frozenset/list/tuple/None/list with duplicates) and read-only surgery ops for 2-4 callers on the shared graph objects, evolve steps between rounds; executed by 4 workers (distinct PYTHONHASHSEED, distinct construction history and constructor) x 3 populations (sequential baseline, interleaved, interleaved+aborts); non-trivial iff a context switch or abort landed inside an operation; distinct = distinct (scenario id, worker id)",
     "C11": "case = seeded expression recipe (depth<=4, <=6 fresh variable names) with 2-5 presentation permutations and an ordering; executed by 4 workers with distinct PYTHONHASHSEED; non-trivial iff at least two different iteration orders of the case's variable set were actually observed among the workers that ran it; distinct = distinct case id",
 }
 ASSUMPTIONS = {
@@ -447,6 +448,11 @@ ASSUMPTIONS = {
     ],
     "C02": [
         "Tian-Pearl decision procedure in sim/models.py is a correct and complete identifiability oracle (Huang & Valtorta 2006)",
+        "pre-emption granularity is one y0 source line",
+        "seeded sampling: a clean batch is evidence, not proof",
+    ],
+    "C04": [
+        "the Bayes-ball reachability procedure on the explicit latent-variable DAG in sim/models.py is a correct m-separation oracle (cross-checked against path enumeration by ./check selftest)",
         "pre-emption granularity is one y0 source line",
         "seeded sampling: a clean batch is evidence, not proof",
     ],
@@ -521,7 +527,7 @@ def main() -> int:
             c = json.loads(ns.collect)
             print(json.dumps(selftest.collect_digests(c["prop"], c["per_group"], c["nworkers"], seed, scratch)))
             return 0
-        if ns.prop not in ("C02", "C11", "C14"):
+        if ns.prop not in ("C02", "C04", "C11", "C14"):
             print(f"HARNESS-ERROR: unknown property {ns.prop}")
             return 2
         if ns.replay:
